@@ -366,6 +366,10 @@ pub fn check(case: &Case, res: &RunResult, status: &str) -> Vec<(String, String)
     let mut counters: BTreeMap<String, usize> = BTreeMap::new();
     for o in ops.iter().filter(|o| is_send(&o.form)) {
       for v in &o.vals {
+        // broadcast contiguity is judged on the values that were actually sent
+        if spmc && !sent_ok.contains_key(v) {
+          continue;
+        }
         let c = counters.entry(o.handle.clone()).or_insert(0);
         prod_pos.insert(*v, (o.handle.clone(), *c));
         *c += 1;
